@@ -130,6 +130,46 @@ def pyCls : PyVal → Option String
   | .obj c _ _ => some c
   | _ => none
 
+
+/-! the driver builds the dictionary of a vocabulary once per request (the model functions rebuild it for every
+    tag, which is quadratic in the size classes of follow-up 3); the fast forms are the model functions -/
+
+def classificationWith (m : List ((Encoding.Term × String) × Nat)) : List Tag → Option Nat
+  | [] => none
+  | t :: ts =>
+    match dictGet m (key t) with
+    | some i => some i
+    | none => classificationWith m ts
+
+theorem classificationWith_eq (vocab tags : List Tag) :
+    classificationWith (mapping vocab) tags = classificationEncoding vocab tags := by
+  induction tags with
+  | nil => rfl
+  | cons t ts ih =>
+    simp only [classificationWith, classificationEncoding, encode]
+    cases dictGet (mapping vocab) (key t) with
+    | some i => rfl
+    | none => exact ih
+
+def multilabelFast (vocab tags : List Tag) : List Nat :=
+  let m := mapping vocab
+  tags.foldl (fun acc t => store acc (dictGet m (key t)) 1) (List.replicate vocab.length 0)
+
+theorem multilabelFast_eq (vocab tags : List Tag) : multilabelFast vocab tags = multilabelEncoding vocab tags := rfl
+
+def predictionFast (cast : Rat → Rat) (vocab : List Tag) (preds : List PredictedTag) : List Rat :=
+  let m := mapping vocab
+  preds.foldl (fun acc p => store acc (dictGet m (key p.tag)) (cast p.score)) (List.replicate vocab.length 0)
+
+theorem predictionFast_eq (cast : Rat → Rat) (vocab : List Tag) (preds : List PredictedTag) :
+    predictionFast cast vocab preds = predictionEncoding cast vocab preds := rfl
+
+def encodeAll (vocab tags : List Tag) : List (Option Nat) :=
+  let m := mapping vocab
+  tags.map fun t => dictGet m (key t)
+
+theorem encodeAll_eq (vocab tags : List Tag) : encodeAll vocab tags = tags.map (encode vocab) := rfl
+
 def handle (op : String) (a : Json) : Except String Json := do
   match op with
   | "encoder" =>
@@ -137,15 +177,15 @@ def handle (op : String) (a : Json) : Except String Json := do
     let tags ← getTags a "tags"
     return Json.mkObj [
       ("num_classes", natJ (numClasses vocab)),
-      ("encode", arrJ (tags.map fun t => optJ natJ (encode vocab t))),
+      ("encode", arrJ ((encodeAll vocab tags).map (optJ natJ))),
       ("decode", arrJ ((List.range vocab.length).map fun i => optJ tagJ (decode vocab i)))]
   | "classification" =>
-    return optJ natJ (classificationEncoding (← getTags a "vocab") (← getTags a "tags"))
+    return optJ natJ (classificationWith (mapping (← getTags a "vocab")) (← getTags a "tags"))
   | "multilabel" =>
-    return natsJ (multilabelEncoding (← getTags a "vocab") (← getTags a "tags"))
+    return natsJ (multilabelFast (← getTags a "vocab") (← getTags a "tags"))
   | "prediction" =>
     let (preds, tbl) ← getPreds a "preds"
-    return ratsJ (predictionEncoding (castOf tbl) (← getTags a "vocab") preds)
+    return ratsJ (predictionFast (castOf tbl) (← getTags a "vocab") preds)
   | "holds_classification" =>
     let out ← match fldOpt a "out" with
       | none => pure none
@@ -205,6 +245,38 @@ def handle (op : String) (a : Json) : Except String Json := do
     let hk (v : PyVal) : Bool := ((pyCls v).bind hashFields).isSome
     return Json.mkObj [("eq", boolJ (PyVal.beq x y)), ("canon_eq", boolJ (Val.beq x.canon y.canon)),
                        ("has_key", boolJ (hk x && hk y))]
+  | "extras_eq" =>
+    -- two terms as constructed: the canonical descriptor the walk produced and the extras in insertion order
+    let rd (j : Json) : Except String (RawTerm × Encoding.Term) := do
+      let t ← getTerm (← fld j "term")
+      let items ← (← fldArr j "items").mapM fun p => do
+        match ← getArr p with
+        | [k, v] => return (← k.getStr?, ← v.getStr?)
+        | _ => .error "items: expected pair"
+      return (({ core := t, extra := items } : RawTerm), t)
+    let (x, tx) ← rd (← fld a "a")
+    let (y, ty) ← rd (← fld a "b")
+    return Json.mkObj [("py_eq", boolJ (x.pyEq y)), ("canon_eq", boolJ (decide (x.canon = y.canon))),
+                       ("sent_eq", boolJ (decide (tx = ty))),
+                       ("canon_is_sent", boolJ (decide (x.canon = tx) && decide (y.canon = ty))),
+                       ("wf", boolJ (decide ((x.extra.map (·.1)).Nodup) && decide ((y.extra.map (·.1)).Nodup)))]
+  | "bind_call" =>
+    -- Python's binding of a call with `npos` positional arguments (ids 0..npos-1) and the keywords `kw`
+    -- (ids npos..) to the parameter names extracted from the code; `sig` names the documented table
+    let params ← (← fldArr a "params").mapM (·.getStr?)
+    let npos ← fldNat a "npos"
+    let kw ← (← fldArr a "kw").mapM (·.getStr?)
+    let doc := match fldOpt a "sig" with
+      | some (.str "find_tag") => some findTagSig
+      | some (.str "find_feature") => some findFeatureSig
+      | some (.str "encoding") => some encodingSig
+      | _ => none
+    let b := bindCall params (List.range npos) (kw.zipIdx.map fun (k, j) => (k, npos + j))
+    return Json.mkObj [
+      ("documented", boolJ (doc == some params)),
+      ("binding", match b with
+        | none => Json.null
+        | some xs => arrJ (xs.map fun (k, i) => arrJ [Json.str k, natJ i]))]
   | _ => .error s!"C19: unknown op {op}"
 
 end SE.Ops.C19
